@@ -1726,6 +1726,20 @@ fn exec_net(out: &mut Out, w: &NetWorld, line: &str) -> (String, bool) {
                 out.oracle_fail("parse.net.wsproxy.served_inexact_message", "the WebSocket proxy forwarded (and got answered, ec 0) a binary message that is not exactly one consistent frame", &[line.to_string()]);
             }
         }
+        // EINTR while the blocking Client's reader is blocked INSIDE a response frame whose remaining bytes begin with a
+        // well-formed response frame for the same id: the call may fail, or return the real response — never the embedded one
+        "eintr" => {
+            let cut = ws_.get(5).copied().unwrap_or("0");
+            let signals = ws_.get(6).copied().unwrap_or("1");
+            let exe = std::env::current_exe().expect("current exe");
+            let outp = std::process::Command::new(exe).args(["eintr-child", ws_[3], cut, signals]).output();
+            let text = outp.as_ref().map(|o| String::from_utf8_lossy(&o.stdout).to_string()).unwrap_or_default();
+            let res = text.lines().find_map(|l| l.strip_prefix("RESULT ")).unwrap_or("none").to_string();
+            out.count(&format!("parse.net.eintr.{}", res.split(' ').next().unwrap_or("none")));
+            if res.starts_with("ok-other") {
+                out.oracle_fail("parse.net.client.resync_inside_frame_after_eintr", &format!("after {} EINTR at offset {} of a response the blocking Client returned Ok with a body that is not the body of the response frame on the stream ({}): bytes inside the frame were parsed as a frame of their own", signals, cut, &res[..res.len().min(80)]), &[line.to_string()]);
+            }
+        }
         // class i at the clients' entry points: a well-formed response for the client's own id, delivered in pieces at chosen
         // cut points with stalls in between (`bs` = the JSON body of the reply, padded to a chosen size).  It is one whole
         // consistent frame: the call returns Ok with exactly that body.
@@ -1922,17 +1936,34 @@ fn gen_net2(r: &mut Rng, thorough: bool) -> Vec<String> {
         if !thorough && i % 2 == 1 { continue; }
         ops.push(format!("net l{} {} {} 0 f{}", i, ep, hex(r.pick(&hostile)), *r.pick(if thorough { &[1usize, 16, 64, 256][..] } else { &[1usize, 16, 64][..] })));
     }
-    // (i) replies to the real clients in pieces
-    for i in 0..(if thorough { 60 } else { 10 }) {
-        let total = *r.pick(&[52usize, 60, 300, 8191, 8192, 8193, 16384, 70_000]);
+    // (i, g) EINTR inside a response frame to the blocking Client, 1 / 2 / 8 signals in a row, at offsets where the rest of the
+    // stream begins with a well-formed response for the same id (the id is stamped in by the child: marker 0x5a…)
+    const ID_MARK: u64 = 0x5a5a_5a5a_5a5a_5a5a;
+    for i in 0..(if thorough { 24 } else { 4 }) {
+        let emb = RawFrame::request(ID_MARK, false, 1, b"/x", 2, b"\"SMUGGLED\"").to_vec();
+        let (real, pos) = match i % 4 {
+            0 => { let mut b = vec![b' '; 1 + r.below(20) as usize]; let k = b.len(); b.extend_from_slice(&emb); (RawFrame::request(ID_MARK, false, 1, b"/x", 0, &b).to_vec(), 48 + 2 + k) }
+            1 => { let mut b = emb.clone(); b.extend(r.bytes(5)); (RawFrame::request(ID_MARK, false, 1, b"/x", 0, &b).to_vec(), 48 + 2) }
+            2 => (RawFrame::request(ID_MARK, false, 1, &emb, 0, b"tail").to_vec(), 48),
+            _ => { let mut b = vec![b' '; 40]; b.extend_from_slice(&emb); (RawFrame::request(ID_MARK, false, 1, b"/x", 0, &b).to_vec(), 1 + r.below(47) as usize) }   // control: EINTR inside the header
+        };
+        ops.push(format!("net ei{} eintr {} 0 {} {}", i, hex(&real), pos, *r.pick(&[1usize, 2, 8])));
+    }
+    // (i) replies to the real clients in pieces: every cut class for both clients, with and without a stall
+    for i in 0..(if thorough { 80 } else { 12 }) {
+        let total = *r.pick(&[57usize, 60, 300, 8191, 8192, 8193, 16384, 70_000]);
         let mut body = b"[1,2,3]".to_vec();
-        body.resize(total.max(57) - 50, b' ');
-        let cuts = match r.below(4) {
-            0 => format!("c{}", (1..total.min(120)).map(|x| x.to_string()).collect::<Vec<_>>().join(".")),
-            1 => "c48".to_string(),
+        body.resize(total - 50, b' ');
+        let cuts = match (i / 2) % 6 {
+            0 => format!("c{}", (1..total.min(120)).map(|x| x.to_string()).collect::<Vec<_>>().join(".")),   // 1-byte pieces
+            1 => format!("c{}", 1 + r.below(47)),                         // inside the header
+            2 => "c48".to_string(),
+            3 => "c49.50".to_string(),                                    // inside the query, at the body boundary
+            4 => format!("c{}", 51 + r.below(body.len() as u64 - 1)),     // inside the body
             _ => gen_cuts(r, 0, 2, body.len()),
         };
-        let stall = if cuts.matches('.').count() > 3 { 0 } else { *r.pick(&[0u64, 0, 30, 90]) };
+        // a stall between 2–3 pieces; a hundred 1-byte pieces get 1 ms each so that they really arrive one by one
+        let stall = if cuts.matches('.').count() > 3 { 1 } else { *r.pick(&[0u64, 30, 90]) };
         ops.push(format!("net cf{} {} {} 0 {} {}", i, if i % 2 == 0 { "clientfrag" } else { "aclientfrag" }, hex(&body), cuts, stall));
     }
     ops
@@ -1988,7 +2019,88 @@ fn fixture_ops(out: &mut Out) -> Vec<String> {
     ops
 }
 
+// ------------------------------------------------------------------------------------------
+// EINTR inside a response frame (child process: signals are process-wide, so this runs in a process of its own whose only
+// thread able to take the signal is the blocking Client's reader thread)
+// ------------------------------------------------------------------------------------------
+extern "C" fn eintr_noop(_: libc::c_int) {}
+
+fn block_sigusr1() {
+    unsafe {
+        let mut set: libc::sigset_t = std::mem::zeroed();
+        libc::sigemptyset(&mut set);
+        libc::sigaddset(&mut set, libc::SIGUSR1);
+        libc::pthread_sigmask(libc::SIG_BLOCK, &set, std::ptr::null_mut());
+    }
+}
+
+/// `fam_wire eintr-child <hex of the real response with id 0> <offset> <signals>`: a peer sends the response up to
+/// `offset`, delivers `signals` SIGUSR1 (handler installed without SA_RESTART, so the reader's blocked read() returns
+/// EINTR), then sends the rest.  Prints what the call returned.
+fn eintr_child(extra: &[String]) {
+    use std::io::{Read, Write};
+    let template = unhex(&extra[1]).expect("hex");
+    let cut: usize = extra[2].parse().expect("offset");
+    let signals: usize = extra[3].parse().expect("signals");
+    unsafe {
+        let mut sa: libc::sigaction = std::mem::zeroed();
+        sa.sa_sigaction = eintr_noop as *const () as usize;
+        sa.sa_flags = 0;
+        libc::sigaction(libc::SIGUSR1, &sa, std::ptr::null_mut());
+    }
+    let l = std::net::TcpListener::bind("127.0.0.1:0").unwrap();
+    let addr = l.local_addr().unwrap();
+    let (tx, rx) = std::sync::mpsc::channel::<Vec<u8>>();
+    let server = std::thread::spawn(move || {
+        block_sigusr1();
+        let Ok((mut s, _)) = l.accept() else { return };
+        let _ = s.set_nodelay(true);
+        let mut got = Vec::new();
+        let mut tmp = [0u8; 4096];
+        while RawFrame::parse_prefix(&got).is_none() {
+            match s.read(&mut tmp) { Ok(0) | Err(_) => return, Ok(n) => got.extend_from_slice(&tmp[..n]) }
+        }
+        let id = RawHeader::parse(&got).map(|h| h.id).unwrap_or(0);
+        // the template carries id 0 in the outer header and in every embedded header: stamp the client's id everywhere
+        let mut real = template.clone();
+        let marker = 0x5a5a_5a5a_5a5a_5a5au64.to_le_bytes();
+        let mut i = 0;
+        while i + 8 <= real.len() {
+            if real[i..i + 8] == marker { real[i..i + 8].copy_from_slice(&id.to_le_bytes()); i += 8; } else { i += 1; }
+        }
+        let _ = tx.send(real.clone());
+        let cut = cut.min(real.len());
+        let _ = s.write_all(&real[..cut]);
+        std::thread::sleep(std::time::Duration::from_millis(120));
+        for _ in 0..signals {
+            unsafe { libc::kill(libc::getpid(), libc::SIGUSR1); }
+            std::thread::sleep(std::time::Duration::from_millis(15));
+        }
+        std::thread::sleep(std::time::Duration::from_millis(60));
+        let _ = s.write_all(&real[cut..]);
+        std::thread::sleep(std::time::Duration::from_millis(400));
+    });
+    let c = repe::Client::connect(addr).expect("connect");   // the reader thread inherits this thread's unblocked mask
+    block_sigusr1();                                          // now only the reader thread can take SIGUSR1
+    let r = c.call_with_formats_and_timeout("/x", 1, Some(b"{}"), 2, std::time::Duration::from_secs(5));
+    let real = rx.recv_timeout(std::time::Duration::from_secs(5)).unwrap_or_default();
+    match r {
+        Ok(m) => {
+            let want = RawFrame::parse_prefix(&real).map(|(f, _)| f);
+            let same = want.as_ref().map(|f| f.body == m.body && f.query == m.query && RawHeader::of(&m.header) == f.h).unwrap_or(false);
+            println!("RESULT {}", if same { "ok-real".to_string() } else { format!("ok-other {}", hex(&m.body)) });
+        }
+        Err(e) => println!("RESULT err {}", err_class(&e)),
+    }
+    let _ = server.join();
+}
+
 fn main() {
+    if std::env::args().nth(1).as_deref() == Some("eintr-child") {
+        let extra: Vec<String> = std::env::args().skip(1).collect();
+        eintr_child(&extra);
+        return;
+    }
     let args = Args::parse();
     let family = args.extra.first().cloned().unwrap_or_else(|| "wire".into());
     if family == "parse" { counting_panic_hook(); } else { quiet_panics(); }
